@@ -128,12 +128,16 @@ func (e *env) signer(cls string) int {
 	if cls == "prop" || cls == "" {
 		return z
 	}
+	var rest []int
 	for _, i := range e.others() {
 		if i != z {
-			return i
+			rest = append(rest, i)
 		}
 	}
-	return z
+	if cls == "third" {
+		return rest[len(rest)-1]
+	}
+	return rest[0]
 }
 
 func (e *env) blockIDOf(cls string) (types.BlockID, error) {
@@ -143,6 +147,8 @@ func (e *env) blockIDOf(cls string) (types.BlockID, error) {
 		return e.blockID(xsym(h))
 	case "nil":
 		return types.BlockID{}, nil
+	case "last":
+		return e.blockID(xsym(h - 1))
 	case "unk":
 		return types.BlockID{Hash: bytes.Repeat([]byte{0xab}, 20), PartsHeader: types.PartSetHeader{Total: 3, Hash: bytes.Repeat([]byte{0xcd}, 20)}}, nil
 	}
@@ -327,8 +333,6 @@ func (e *env) concretise(m msgClass) (chID byte, bz []byte, err error) {
 		switch f["pf"] {
 		case "bad":
 			part.Proof = merkle.SimpleProof{Aunts: [][]byte{bytes.Repeat([]byte{1}, 20), bytes.Repeat([]byte{2}, 20)}}
-		case "empty":
-			part.Proof = merkle.SimpleProof{}
 		}
 		if f["pb"] == "garbage" {
 			part.Bytes = bytes.Repeat([]byte{0xee}, 37)
